@@ -235,6 +235,8 @@ impl Resolver<'_, PeerAs, PrefixSet<Any>> for RpslEvaluator {
 
     #[tracing::instrument(skip(self), level = "debug")]
     fn resolve(&mut self, _: &PeerAs) -> Result<PrefixSet<Any>, Self::IError> {
-        unimplemented!()
+        // `PeerAS` is only meaningful relative to a peering; there is none here. Fail this
+        // evaluation instead of panicking (which would take every other evaluation down too).
+        Err(Error::Unsupported("PeerAS"))
     }
 }
